@@ -297,7 +297,30 @@ func (csm *conditionalStorageMiddleware) CopyObject(ctx context.Context, srcBuck
 	}
 	defer body.Close()
 
-	putResult, err := dstStorage.PutObject(ctx, dstBucket, dstKey, contentType, body, nil, nil)
+	// Carry metadata, tags and storage class over like a same-storage copy does:
+	// metadata and tags follow the directives, the website redirect location is
+	// never copied and the storage class comes from the request only.
+	putOpts := &storage.PutObjectOptions{}
+	if opts != nil && opts.ReplaceMetadata {
+		putOpts.Metadata = opts.Metadata
+	} else {
+		metadata := srcObject.Metadata
+		metadata.WebsiteRedirectLocation = nil
+		if opts != nil && opts.Metadata != nil {
+			metadata.WebsiteRedirectLocation = opts.Metadata.WebsiteRedirectLocation
+		}
+		putOpts.Metadata = &metadata
+	}
+	if opts != nil && opts.ReplaceTags {
+		putOpts.Tags = opts.Tags
+	} else {
+		putOpts.Tags = srcObject.Tags
+	}
+	if opts != nil {
+		putOpts.StorageClass = opts.StorageClass
+	}
+
+	putResult, err := dstStorage.PutObject(ctx, dstBucket, dstKey, contentType, body, nil, putOpts)
 	if err != nil {
 		return nil, err
 	}
